@@ -218,7 +218,7 @@ func TestPropLeaderGuard(t *testing.T) {
 			_ = box.Controller.Indexer.Add(poolCluster(name, 10))
 		}
 		led := map[int]bool{}
-		served := map[int]bool{}  // a call for this shard has succeeded while led
+		served := map[int]bool{} // a call for this shard has succeeded while led
 		lostAfter := map[int]bool{}
 		acked := map[int]map[string]bool{} // shard -> condition names acknowledged in the current leadership term (local) / ever (k8s)
 		ids := map[string]int64{}
